@@ -14,7 +14,7 @@ import json
 import os
 import shutil
 
-from . import common, flowgraph, pygen, relayout
+from . import common, flowgraph, pygen, relayout, extractcorr
 
 
 def lint_shape(S, project, src, fname):
@@ -56,8 +56,14 @@ def corpus(check):
 
 def run(check):
     quick = check.tier == 'quick'
-    check.prove(extra_targets=('drv_flow',))
+    check.prove(extra_targets=('drv_flow', 'drv_extract'))
+    # the extractor itself: Lean transliteration of nast.extract (family Extract), its theorems count here too
+    check.prove_also('Extract')
     S = flowgraph.load_supp()
+    extract_programs = [('special%d' % i, s) for i, s in enumerate(extractcorr.SPECIALS)] + \
+        extractcorr.generated(check.rng, 150 if quick else 1500) + extractcorr.repo_files() + \
+        extractcorr.stdlib_files(check.rng, 10 if quick else 200)
+    extractcorr.stream(check, S, extract_programs, name='extractor (Lean transliteration of nast.extract = real extractor, exact graph comparison)')
     tmp = '/tmp/verif-c13-%d' % os.getpid()
     os.makedirs(tmp, exist_ok=True)
     project = S['project'].Project([tmp])
